@@ -2267,7 +2267,9 @@ pub fn thread_effects(sig: &mut syn::Signature, block: &mut Block, w: &str, ty: 
                             let m = id(m);
                             let r = &mc.receiver;
                             let args = &mc.args;
-                            repl = Some(if args.is_empty() { parse_quote!(#w.#m(#r)) } else { parse_quote!(#w.#m(#r, #args)) });
+                            // a `&self` method auto-references its receiver: `x.m()` is `m(&x)` whether `x` is a value or already a reference
+                            // (`&&T` coerces to `&T` at the argument), so the world method receives `&receiver`
+                            repl = Some(if args.is_empty() { parse_quote!(#w.#m(&#r)) } else { parse_quote!(#w.#m(&#r, #args)) });
                         }
                         // `methodref`: the receiver is a place (e.g. `self.verifier`), passed to the world by shared reference
                         if k == "methodref" && mc.method == pat.as_str() {
